@@ -180,6 +180,10 @@ func TestC16(t *testing.T) {
 			var m model.Packet
 			if typ == 0 {
 				body = rapid.SliceOfN(rapid.Byte(), 0, 40).Draw(t, "body")
+				if rapid.IntRange(0, 3).Draw(t, "bigbody") == 0 {
+					n := rapid.SampledFrom([]int{127, 128, 1023, 1024, 1025, 4096, 4097, 16384, 65535, 65536, 70000}).Draw(t, "bodylen")
+					body = bytes.Repeat(append([]byte{0x5a}, body...), n/(len(body)+1)+1)[:n]
+				}
 			} else {
 				m = genSpecValid(t, typ)
 			}
